@@ -106,6 +106,7 @@ macro_rules
 
 set_option autoImplicit true
 
+frame_lemmas (hit s) unfolding hit : exprCnt rstack vstack recoveryStack maxFailInvert state pt memo errs global trace nCalls end
 frame_lemmas (pushV s) unfolding pushV : exprCnt rstack recoveryStack maxFailInvert state pt memo errs global trace nCalls end
 frame_lemmas (popV s) unfolding popV : exprCnt rstack recoveryStack maxFailInvert state pt memo errs global trace nCalls end
 frame_lemmas (pushRecovery s l r) unfolding pushRecovery : exprCnt rstack vstack maxFailInvert state pt memo errs global trace nCalls end
@@ -119,7 +120,7 @@ frame_lemmas (failAt s b p w) unfolding failAt : exprCnt rstack vstack recoveryS
 frame_lemmas (restore s p) unfolding restore : exprCnt rstack vstack recoveryStack maxFailInvert state memo errs global trace nCalls end
 frame_lemmas (restoreState E s st) unfolding restoreState : exprCnt rstack vstack recoveryStack maxFailInvert pt memo errs global trace nCalls end
 frame_lemmas (setMemoized s p k t) unfolding setMemoized : exprCnt rstack vstack recoveryStack maxFailInvert state pt errs global trace nCalls end
-frame_lemmas (incChoiceAlt E s l c a) unfolding incChoiceAlt : exprCnt rstack vstack recoveryStack maxFailInvert state pt memo errs global trace nCalls end
+frame_lemmas (incChoiceAlt s l c a) unfolding incChoiceAlt : exprCnt rstack vstack recoveryStack maxFailInvert state pt memo errs global trace nCalls end
 frame_lemmas (read E s) unfolding read addErr addErrAt : exprCnt rstack vstack recoveryStack maxFailInvert state memo global trace nCalls end
 frame_lemmas (callBlock E b s).2 unfolding callBlock : exprCnt rstack vstack recoveryStack maxFailInvert pt memo errs end
 
